@@ -52,6 +52,10 @@ func (d *Dataset) strip(line string) string {
 	return line
 }
 
+// numbers that can be written as a JSON number and whose label text is the same text (no exponent,
+// no sign prefix, no leading zeros)
+var jsonPlainNumber = regexp.MustCompile(`^-?(0|[1-9][0-9]*)(\.[0-9]+)?$`)
+
 const accessPattern = `<addr> - <user> [<_>] "<method> <path>" <status> <size>`
 const accessRegexp = `^(?P<addr>\S+) - (?P<user>\S+) \[[^\]]*\] "(?P<method>\S+) (?P<path>\S+)" (?P<status>\d+) (?P<size>\S+)$`
 
@@ -167,7 +171,7 @@ func genDataset(r *vk.RNG, format string, n int, t0 int64) *Dataset {
 			doc := &FieldDoc{Vals: map[string]any{}}
 			for _, kv := range kept {
 				doc.Keys = append(doc.Keys, kv[0])
-				if _, isNum := numValues[kv[1]]; isNum && kv[0] == "status" && kv[1] != "007" && kv[1] != "+5" && kv[1] != "1e3" && r.Bool() {
+				if _, isNum := numValues[kv[1]]; isNum && kv[0] == "status" && jsonPlainNumber.MatchString(kv[1]) && r.Bool() {
 					doc.Vals[kv[0]] = json.Number(kv[1])
 				} else {
 					doc.Vals[kv[0]] = kv[1]
